@@ -7,6 +7,9 @@ import PyYetiVerif.Props.C16FullRf
 import PyYetiVerif.Props.C16Stat
 import PyYetiVerif.Props.C16Tree
 import PyYetiVerif.Props.C16Heap
+import PyYetiVerif.Props.C16Labels
+import PyYetiVerif.Props.C16Split
+import PyYetiVerif.Props.C16LabelsNest
 #print axioms PyYetiVerif.C16.ext_is_fold_max
 #print axioms PyYetiVerif.C16.spec_determines_result
 #print axioms PyYetiVerif.C16.ext_values_order_independent
@@ -61,3 +64,16 @@ import PyYetiVerif.Props.C16Heap
 #print axioms PyYetiVerif.C16.psd_srs_case_scaling
 #print axioms PyYetiVerif.C16.heap_run_is_run2
 #print axioms PyYetiVerif.C16.nested_envelope_is_recursive_extrema
+#print axioms PyYetiVerif.C16.merge_lists_spec
+#print axioms PyYetiVerif.C16.form_extreme_by_label
+#print axioms PyYetiVerif.C16.form_extreme_row_is_first_best
+#print axioms PyYetiVerif.C16.form_extreme_label_order
+#print axioms PyYetiVerif.C16.expand_missing_rows_neutral
+#print axioms PyYetiVerif.C16.form_extreme_event_order_values_independent
+#print axioms PyYetiVerif.C16.form_extreme_refuses_repeated_labels
+#print axioms PyYetiVerif.C16.form_extreme_accepts_differing_rows
+#print axioms PyYetiVerif.C16.abscissa_of_governing_event_mixed
+#print axioms PyYetiVerif.C16.cases_label_matches_column
+#print axioms PyYetiVerif.C16.split_pairs_cases_with_columns
+#print axioms PyYetiVerif.C16.uf_reds_none_entries_documented
+#print axioms PyYetiVerif.C16.form_extreme_nested_by_label_values
